@@ -613,6 +613,19 @@ class _SetOperation(Selectable, Term):  # type:ignore[misc]
         self._offset = cast(ValueWrapper, self.wrap_constant(offset))
 
     @builder
+    def slice(self, slice: slice) -> "Self":  # type:ignore[return]
+        if slice.start is not None:
+            self._offset = cast(ValueWrapper, self.wrap_constant(slice.start))
+        if slice.stop is not None:
+            self._limit = cast(ValueWrapper, self.wrap_constant(slice.stop))
+
+    def __getitem__(self, item: Any) -> Self | Field:  # type:ignore[override]
+        # like QueryBuilder: a slice sets the row-limiting clause, a name is a column of the result
+        if not isinstance(item, slice):
+            return super().__getitem__(item)
+        return self.slice(item)
+
+    @builder
     def union(self, other: Selectable) -> "Self":  # type:ignore[return]
         self._set_operation = self._set_operation + [(SetOperation.union, other)]  # type:ignore[list-item]
 
